@@ -37,7 +37,7 @@ EXPLANATION = ("Props/C17.v is in the state of the repaired tree (notes/C17-fix.
                "gen_word_strict/gen_word_guard differ, C17_word_source_facts fails, and the F-17a / F-17c inputs are reported.")
 
 PRE = ("From Coq Require Import List NArith Arith Bool.\n"
-       "From PP Require Import Model.Str Model.Regex Gen.GenC17 Model.ReGen Model.WordModel Model.OneOf.\n"
+       "From PP Require Import Model.Str Model.Regex Gen.GenC17 Model.ReGen Model.WordModel Model.OneOf Model.CompRe.\n"
        "Import ListNotations.\n"
        "Fixpoint strings_exact (alpha : list char) (n : nat) : list str := match n with 0 => [[]] | S m => flat_map (fun c => map (cons c) (strings_exact alpha m)) alpha end.\n"
        "Fixpoint strings_upto (alpha : list char) (n : nat) : list str := match n with 0 => [[]] | S m => strings_upto alpha m ++ strings_exact alpha (S m) end.\n"
@@ -269,7 +269,6 @@ def word_kw_class(a, w, s, loc, l, r):
 def word_family(ctx):
     allargs = word_args(ctx.thorough)
     n_model = 3
-    n_real = 4 if ctx.thorough else 3
     # --- implementation vs implementation vs reading (all args)
     built = {}
     for a in allargs:
@@ -278,7 +277,10 @@ def word_family(ctx):
         if w is None:
             continue
         alpha = "".join(sorted(set((a[0] or "") + (a[1] or "") + "a1 ")))[:5 if ctx.thorough else 4]
-        for s in strings(alpha, n_real):
+        # all short strings over the relevant alphabet, plus longer ones over two/three letters (runs longer than max)
+        two = ((a[0] or "a")[:1] + ((a[1] or a[0] or "a")[-1:]))
+        sset = strings(alpha, 3) + [x for x in strings("".join(sorted(set(two + ("1" if ctx.thorough else "")))), 6 if ctx.thorough else 5) if len(x) > 3]
+        for s in sset:
             for loc in range(len(s) + 1):
                 l, r = word_paths(w, s, loc)
                 sp = word_spec_py(a, s, loc)
@@ -301,13 +303,13 @@ def word_family(ctx):
                                   "Word%r (as_keyword) at %r[%d]: character loop gives %r, regex %r gives %r" % (a, s, loc, l, w.reString, r), rep)
                 ctx.case(("word", a, s, loc), nontriv, ok)
     # --- model vs implementation (a stratified part of the grid; everything in thorough)
-    margs = [a for i, a in enumerate(allargs) if ctx.thorough or i % 3 == 0]
+    margs = [a for i, a in enumerate(allargs) if i % (2 if ctx.thorough else 3) == 0]
     alpha_m = "ab1] -"
-    strs = strings(alpha_m[:5] if not ctx.thorough else alpha_m, n_model)
+    strs = strings(alpha_m[:5], n_model)
     pre = PRE + ("Definition strs := strings_upto %s %d.\n"
                  "Definition runw (a : wargs) := let r := word_regex gen_word_guard a in (w_valid a, r, if w_valid a then map (fun s => map (fun i => "
                  "enc (word_loop gen_word_strict a s i) + 8 * enc (match r with Some r => word_regex_path r s i | None => None end) + 64 * enc (word_spec a s i)) "
-                 "(seq 0 (S (length s)))) strs else []).\n" % (cs(alpha_m[:5] if not ctx.thorough else alpha_m), n_model))
+                 "(seq 0 (S (length s)))) strs else []).\n" % (cs(alpha_m[:5]), n_model))
 
     def acoq(a):
         init, body, mn, mx, ex, kw, excl = a
@@ -404,7 +406,7 @@ def oneof_lists(thorough):
             if list(p) not in out:
                 out.append(list(p))
     if not thorough:
-        out = [l for i, l in enumerate(out) if len(l) < 3 or (len(l) == 3 and i % 5 == 0) or (len(l) > 3 and i % 3 == 0)]
+        out = [l for i, l in enumerate(out) if len(l) < 3 or (len(l) == 3 and i % 7 == 0) or (len(l) > 3 and i % 3 == 0)]
     return out
 
 
@@ -492,7 +494,7 @@ def oneof_family(ctx):
                                               syms, cl, s, loc, r1, r2), rep)
                         ctx.case(("oneof", tuple(syms), cl, kw, s, loc), r2 is not None, ok)
     # --- model vs implementation
-    mlists = [l for i, l in enumerate(lists) if ctx.thorough or i % 2 == 0]
+    mlists = [l for i, l in enumerate(lists) if ctx.thorough or i % 3 == 0]
     al_m = "abAB.-"
     strs = strings(al_m, 2 if not ctx.thorough else 3)
     pre = PRE + ("Definition strs := strings_upto %s %d.\n"
@@ -696,6 +698,18 @@ def compre_family(ctx):
                 trees[patt] = RA.to_tree(patt)
             except RA.Unsupported as e:
                 ctx.broken("correspondence:compre-unsupported %r %s" % (patt, e))
+    # max_level = 0: the Coq model compressed0 vs the real pattern (structure, else behaviour)
+    c0 = [(w, p) for (w, ml, p) in cases if ml == 0]
+    res0 = vlib.coq_eval_terms("c17_compre0", PRE, ["compressed0 [%s]" % "; ".join(cs(x) for x in w) for w, _ in c0], timeout=600)
+    probe = strings("abc.-]", 3)
+    for (w, p), mt in zip(c0, res0):
+        mt = coq_re_tree(mt)
+        if p in trees and canon(mt) != canon(trees[p]):
+            for s in probe:
+                if RA.py_fullmatch(mt, s) != RA.py_fullmatch(trees[p], s) or RA.py_match(mt, s, 0) != RA.py_match(trees[p], s, 0):
+                    ctx.broken("correspondence:compre-level0 words=%r pattern=%r model=%r differ on %r" % (w, p, mt, s))
+                    break
+        ctx.stat("compressed0_compared")
     # the same through the Coq matcher (model of re), on a common alphabet
     pats = sorted(trees)
     strs = strings("abc.", 3)
